@@ -234,6 +234,9 @@ class KexDH:  # pragma: nocover
                         ca_key_n_len = ca_key_n_len - 1  # Subtract the 0x04 byte.
                         ca_key_n_len = int(ca_key_n_len / 2)  # Divide by 2 since the modulus is the size of either the X or Y value.
 
+                        if ca_key_type == 'ecdsa-sha2-nistp521':  # Coordinates on P-521 take 66 bytes, but the key has 521 bits, not 528.
+                            self.__ca_bits = 521
+
 
         else:
             self.out.d("Certificate type %u found; this is not usually valid in the context of a host key!  Skipping it..." % cert_type)
